@@ -70,11 +70,13 @@ Fixpoint check_hist (steps : list hstep) (docs ints : al) (universe keys : list 
 
 Definition pseg := (Z * Z * list nat * bool)%type.   (* id, Count, deleted doc numbers (ascending), file-backed *)
 
+(* [offs]: the global doc number of each segment's first document (IndexSnapshot.offsets), which
+   must be the running sum of the segments' document counts *)
 Inductive tev :=
-| TIntroduce (newsid : Z) (b : batch) (iops : list (Z * option Z)) (proj : list pseg)
+| TIntroduce (newsid : Z) (b : batch) (iops : list (Z * option Z)) (proj : list pseg) (offs : list Z)
 | TMergeStart (file : bool) (groups : list (Z * list (Z * list nat)))  (* new id, captured (id, deleted at capture) *)
-| TMergeFinish (news : list Z) (proj : list pseg)
-| TPersist (ids : list Z) (proj : list pseg).
+| TMergeFinish (news : list Z) (proj : list pseg) (offs : list Z)
+| TPersist (ids : list Z) (proj : list pseg) (offs : list Z).
 
 Fixpoint insert_nat (x : nat) (l : list nat) : list nat :=
   match l with
@@ -91,6 +93,13 @@ Definition pseg_eqb (a b : pseg) : bool :=
   (i1 =? i2) && (c1 =? c2) && list_eqb Nat.eqb d1 d2 && Bool.eqb f1 f2.
 
 Definition proj_eqb (r : list seg) (p : list pseg) : bool := list_eqb pseg_eqb (project r) p.
+
+Fixpoint offsets_from (acc : Z) (r : list seg) : list Z :=
+  match r with
+  | [] => []
+  | s :: r' => acc :: offsets_from (acc + Z.of_nat (length (sdocs s))) r'
+  end.
+Definition offs_eqb (r : list seg) (offs : list Z) : bool := list_eqb Z.eqb (offsets_from 0 r) offs.
 
 Fixpoint find_merge (news : list Z) (ms : list merge) (k : nat) : option nat :=
   match ms with
@@ -115,9 +124,9 @@ Definition captured_matches (m : merge) (groups : list (Z * list (Z * list nat))
 
 Definition tstep (s : st) (e : tev) : option st :=
   match e with
-  | TIntroduce newsid b iops proj =>
+  | TIntroduce newsid b iops proj offs =>
       match step s (EIntroduce newsid b iops) with
-      | Some s' => if proj_eqb (root s') proj then Some s' else None
+      | Some s' => if proj_eqb (root s') proj && offs_eqb (root s') offs then Some s' else None
       | None => None
       end
   | TMergeStart file groups =>
@@ -130,18 +139,18 @@ Definition tstep (s : st) (e : tev) : option st :=
           end
       | None => None
       end
-  | TMergeFinish news proj =>
+  | TMergeFinish news proj offs =>
       match find_merge news (inflight s) 0 with
       | Some k =>
           match step s (EMergeFinish k) with
-          | Some s' => if proj_eqb (root s') proj then Some s' else None
+          | Some s' => if proj_eqb (root s') proj && offs_eqb (root s') offs then Some s' else None
           | None => None
           end
       | None => None
       end
-  | TPersist ids proj =>
+  | TPersist ids proj offs =>
       match step s (EPersist ids) with
-      | Some s' => if proj_eqb (root s') proj then Some s' else None
+      | Some s' => if proj_eqb (root s') proj && offs_eqb (root s') offs then Some s' else None
       | None => None
       end
   end.
@@ -158,7 +167,7 @@ Fixpoint trun (s : st) (evs : list tev) (i : Z) : (option Z) * st :=
 
 Definition to_event (e : tev) : list event :=
   match e with
-  | TIntroduce n b io _ => [EIntroduce n b io]
+  | TIntroduce n b io _ _ => [EIntroduce n b io]
   | _ => []
   end.
 
